@@ -304,7 +304,26 @@ def c_status(pkg, s):
 
 # ------------------------------------------------------------------ C side
 
-def gen_driver_c(progs):
+def field_part(ctext, structname, pkg, fname):
+    """Which part of the generated struct holds field `fname`: "private_impl" or "private_data" (from the C text)."""
+    m = re.search(r"struct wuffs_%s__%s__struct \{(.*?)\n\};" % (pkg, structname), ctext, re.S)
+    body = m.group(1) if m else ctext
+    i = body.find("} private_impl;")
+    j = body.find("} private_data;")
+    k = -1
+    for mm in re.finditer(r"\bf_%s\b" % re.escape(fname), body):
+        k = mm.start()
+        break
+    if k < 0:
+        return None
+    if i >= 0 and k < i:
+        return "private_impl"
+    if j >= 0 and k < j:
+        return "private_data"
+    return None
+
+
+def gen_driver_c(progs, cdir=None):
     """C driver for a batch of enriched programs (each with its own package
     name `pkg` and generated C file <pkg>.c next to the driver)."""
     o = []
@@ -343,6 +362,24 @@ static void hex(const uint8_t* p, size_t n) {
         T = "wuffs_%s__%s" % (pkg, sn)
         o.append("static int init_%d(void) {\n  free(g_obj);\n  g_obj = malloc(sizeof(%s));\n  memset(g_obj, 0xA5, sizeof(%s));\n"
                  "  wuffs_base__status st = %s__initialize((%s*)g_obj, sizeof(%s), WUFFS_VERSION, 0);\n  return st.repr == NULL;\n}\n" % (idx, T, T, T, T, T))
+        # the receiver's fields, printed on request ("F" line): name=value;name=v0,v1,...;
+        o.append("static void fields_%d(void) {\n  %s* obj = (%s*)g_obj;\n  (void)obj;\n  printf(\"F \");\n" % (idx, T, T))
+        ctext = ""
+        if cdir:
+            try:
+                ctext = open(os.path.join(cdir, pkg + ".c")).read()
+            except OSError:
+                ctext = ""
+        for fd in p["fields"]:
+            part = field_part(ctext, sn, pkg, fd["n"]) if ctext else None
+            if part is None:
+                continue
+            if fd["arr"] > 0:
+                o.append("  printf(\"%s=\");\n  for (int i = 0; i < %d; i++) printf(\"%%s%%llu\", i ? \",\" : \"\", (unsigned long long)obj->%s.f_%s[i]);\n  printf(\";\");\n"
+                         % (fd["n"], fd["arr"], part, fd["n"]))
+            else:
+                o.append("  printf(\"%s=%%llu;\", (unsigned long long)obj->%s.f_%s);\n" % (fd["n"], part, fd["n"]))
+        o.append("  printf(\"\\n\");\n}\n")
         o.append("static void call_%d(const char* fn, int n, char** kv) {\n  %s* obj = (%s*)g_obj;\n  const char* st = NULL; long long ret = 0; int known = 0, ispure = 0, pchg = 0;\n" % (idx, T, T))
         for f in p["funcs"]:
             if not f["pub"]:
@@ -388,7 +425,10 @@ static void hex(const uint8_t* p, size_t n) {
              "      switch (g_prog) {\n")
     for idx in range(len(progs)):
         o.append("        case %d: call_%d(tok[1], nt - 5, tok + 5); break;\n" % (idx, idx))
-    o.append("      }\n    }\n    fflush(stdout);\n  }\n  return 0;\n}\n")
+    o.append("      }\n    } else if (tok[0][0] == 'F') {\n      switch (g_prog) {\n")
+    for idx in range(len(progs)):
+        o.append("        case %d: fields_%d(); break;\n" % (idx, idx))
+    o.append("        default: printf(\"F \\n\");\n      }\n    }\n    fflush(stdout);\n  }\n  return 0;\n}\n")
     return "".join(o)
 
 
@@ -399,7 +439,20 @@ def history_script(pidx, h):
     for c in h["hist"]:
         kv = " ".join("%s=%d" % (a["n"], a["v"]) for a in c["args"] if isinstance(a["v"], int))
         lines.append("C %s %d %d %d %s" % (c["fn"], c["wi0"], 1 if c["closed0"] else 0, c["cap0"], kv))
+    lines.append("F")        # the receiver's fields at the end of the history
     return lines
+
+
+def parse_fields(line):
+    """'F a=1;b=2,3;' -> {"a": 1, "b": [2, 3]} (None if the line is not a field line)."""
+    if not line.startswith("F"):
+        return None
+    out = {}
+    for item in line[1:].strip().split(";"):
+        if "=" in item:
+            k, v = item.split("=", 1)
+            out[k] = [int(x) for x in v.split(",")] if "," in v else int(v)
+    return out
 
 
 def parse_reply(line):
